@@ -255,6 +255,12 @@ func newChecker(o *storage.LookupOptions, op *predicate.Predicate) *checker {
 // CheckGlobalTimeBounds checks if a predicate should be considered given the global
 // time bounds.
 func (c *checker) CheckGlobalTimeBounds(p *predicate.Predicate) bool {
+	// The indices are keyed by the partial UUID of the predicate, hence immutable
+	// and temporal predicates with the same ID share buckets. A predicate
+	// provided for the lookup only matches predicates of its own type.
+	if c.op != nil && c.op.Type() != p.Type() {
+		return false
+	}
 	if p.Type() == predicate.Immutable {
 		return true
 	}
